@@ -19,8 +19,10 @@ import (
 	"fmt"
 	"math/big"
 	"os"
+	"reflect"
 	"strconv"
 	"unicode/utf8"
+	"unsafe"
 )
 
 type vReplayDoc struct {
@@ -349,4 +351,72 @@ func vGarbage(name string, lo, hi int) []byte {
 		b[i] = 0xff
 	}
 	return b
+}
+
+// vDeepEqual: reflect.DeepEqual (distinguishes nil from empty slices and maps)
+func vDeepEqual(a, b any) bool { return reflect.DeepEqual(a, b) }
+
+// vAliases: does any byte slice / string reachable from x overlap buf's memory?
+func vAliases(x any, buf []byte) bool {
+	if cap(buf) == 0 {
+		return false
+	}
+	full := buf[:cap(buf)]
+	lo := uintptr(unsafe.Pointer(&full[0]))
+	hi := lo + uintptr(len(full))
+	found := false
+	seen := map[uintptr]bool{}
+	var walk func(v reflect.Value, depth int)
+	walk = func(v reflect.Value, depth int) {
+		if found || depth > 30 || !v.IsValid() {
+			return
+		}
+		switch v.Kind() {
+		case reflect.Slice:
+			if v.Len() > 0 || v.Cap() > 0 {
+				if v.Type().Elem().Kind() == reflect.Uint8 && v.Cap() > 0 {
+					p := v.Pointer()
+					if p < hi && p+uintptr(v.Cap()) > lo {
+						found = true
+						return
+					}
+				}
+				for i := 0; i < v.Len(); i++ {
+					walk(v.Index(i), depth+1)
+				}
+			}
+		case reflect.String:
+			if v.Len() > 0 {
+				p := uintptr(unsafe.Pointer(unsafe.StringData(v.String())))
+				if p < hi && p+uintptr(v.Len()) > lo {
+					found = true
+				}
+			}
+		case reflect.Ptr:
+			if !v.IsNil() && !seen[v.Pointer()] {
+				seen[v.Pointer()] = true
+				walk(v.Elem(), depth+1)
+			}
+		case reflect.Interface:
+			if !v.IsNil() {
+				walk(v.Elem(), depth+1)
+			}
+		case reflect.Struct:
+			for i := 0; i < v.NumField(); i++ {
+				walk(v.Field(i), depth+1)
+			}
+		case reflect.Map:
+			it := v.MapRange()
+			for it.Next() {
+				walk(it.Key(), depth+1)
+				walk(it.Value(), depth+1)
+			}
+		case reflect.Array:
+			for i := 0; i < v.Len(); i++ {
+				walk(v.Index(i), depth+1)
+			}
+		}
+	}
+	walk(reflect.ValueOf(x), 0)
+	return found
 }
